@@ -79,9 +79,40 @@ inline GpInput gen_nearparallel(Rng& g) {
   return in;
 }
 
+// A staircase-like polygon whose horizontal edges carry extra collinear vertices (two or more consecutive collinear horizontal
+// edges in the same direction - legal in general position), crossed by sloped edges of another polygon: exercises the
+// "more horizontals in this bound" path of DoHorizontal with PreserveCollinear on, and horizontal edges generally.
+inline GpInput gen_stairs(Rng& g) {
+  GpInput in;
+  int64_t u = g.pick(std::vector<int64_t>{10, 40, 1000, 1000000});
+  in.R = 14 * u;
+  int steps = (int)g.range(2, 4);
+  Path64 p;
+  int64_t x = 0, y = 10 * u;
+  p.emplace_back((int64_t)0, y);
+  for (int k = 0; k < steps; ++k) {
+    y -= g.range(2, 3) * u;
+    p.emplace_back(x, y);
+    int parts = (int)g.range(2, 3);
+    for (int q = 0; q < parts; ++q) { x += g.range(2, 4) * u; p.emplace_back(x, y); }
+  }
+  p.emplace_back(x, 10 * u);
+  if (g.coin()) std::reverse(p.begin(), p.end());
+  in.subj = {p};
+  Path64 c;
+  int n = (int)g.range(3, 5);
+  for (int k = 0; k < n; ++k) c.emplace_back(g.range(-2 * u, x + 2 * u) + g.range(1, 7), g.range(-u, 12 * u) + g.range(1, 7));
+  if (g.chance(40)) { c[1].y = c[0].y; }   // a horizontal edge in the other polygon too
+  in.clip = {c};
+  if (g.coin()) std::swap(in.subj, in.clip);
+  in.kind = "stairs";
+  return in;
+}
+
 inline GpInput gen_gp_plain(Rng& g);
 inline GpInput gen_gp(Rng& g) {
   if (g.chance(15)) return gen_nearparallel(g);
+  if (g.chance(12)) return gen_stairs(g);
   return gen_gp_plain(g);
 }
 
